@@ -2,6 +2,8 @@
 
 use crate::alpha::*;
 use crate::c01;
+use crate::cat::{rec, xyz, F32};
+use e57spec::model::Ty;
 use crate::harness::pattern;
 use crate::oracle::*;
 use crate::wprog::*;
@@ -138,6 +140,33 @@ pub fn blobs(ctx: &Ctx) {
             ctx.nontrivial();
         }
     }
+}
+
+/// a payload source that fails after k bytes: the refused blob leaves an orphan behind, but every
+/// later section and the finalized file must still be well-formed (finalize succeeded)
+pub fn failed_source(ctx: &Ctx) {
+    let k = [0usize, 1, 2, 3, 4, 5, 7, 1003, 1004, 1005, 2041][ctx.pick("source-fails-after", 11)];
+    let pad = [0usize, 1, 2, 3, 956][ctx.pick("blob-in-front", 5)];
+    let after = ctx.pick("what-follows", 4);
+    let mut ops = vec![];
+    if pad > 0 {
+        ops.push(Op::Blob(pattern(1, pad)));
+    }
+    ops.push(Op::BlobFail(pattern(9, 5000), k));
+    match after {
+        0 => ops.push(Op::Cloud(cloud(xyz(F32), 3, 5))),
+        1 => {
+            // several packets: XYZ f32 + 16 bit intensity, 12000 points
+            let mut pr = xyz(F32);
+            pr.push(rec("intensity", Ty::Int { min: 0, max: 65535 }));
+            ops.push(Op::Cloud(cloud(pr, 12000, 6)));
+        }
+        2 => ops.push(Op::Image(image(3, true, 33, 5))),
+        _ => ops.push(Op::Blob(pattern(4, 10))),
+    }
+    ops.push(Op::Cloud(cloud(xyz(Ty::Int { min: 0, max: 100 }), 2, 8)));
+    let p = Program { guid: "g".into(), ops, ..Default::default() };
+    run(ctx, &p);
 }
 
 /// long payloads (multi-page, around powers of two up to 1 MiB) from short-read sources
